@@ -28,6 +28,9 @@
  *
  * ops (objects are small integers 0..63, texts are hex, `-` = empty):
  *   new k T | new0 k | copy k j | del k
+ *   newin k T         a String that lives INSIDE a container: push(new_raw(Array, String), $S(T)) and k names get(array, 0) — allocation
+ *                     class AllocData, not AllocHeap; its buffer is reallocated by the same code (the alloc checks of String.c refuse
+ *                     Stack / Static only).  `del k` deletes the Array.  Same O line as `new`.
  *   assign k T | assigns k j | concat k T | append k T | concats k j | resize k n | clear k | rem k T | rems k j
  *   fmt k pos T      format_to(s, pos, "%s", T)        fmtl k pos T    format_to(s, pos, T) (T without '%')
  *   print k pos F…   print_to(s, pos, fmt, args) with fragments F = L<hex> literal | S<hex> "%s" | Q<hex> "%$" (show)
@@ -44,14 +47,21 @@
  *   alias <assign|concat|append|print|show|rem|mem|cmp> <self|v<off>> T [pos]
  *                     the call with an operand that IS the target (self) or the view $S(c_str(s) + off) into its buffer, on a fresh
  *                     String holding T, in a forked child; print = print_to(s, pos, "%s", obj), show = show_to(s, s, pos) (self only).
- *                     assign / concat / append / print / show:
+ *                     assign from a view at an offset > 0 / concat / append / print / show:
  *                     known finding KF-C16-alias-operand (sig=kf-c16-alias-operand; witness corpus/kf_c16_alias.ops; never generated);
- *                     rem / mem / cmp make no realloc and are checked against libc by value like any other call
+ *                     assign with self or v0 (c_str(obj) is s->val: early return since 744a45f; sig=str-assign-self, an ordinary violation)
+ *                     and rem / mem / cmp (no realloc) are checked against libc by value like any other call
+ *   assignself k      assign(s, s) inside a history: nothing may change, the whole allocation included (744a45f)
+ *   oom resize T n    resize(s, n) on a fresh String holding T whose realloc FAILS (returns NULL, old block untouched), in a forked
+ *                     child: OutOfMemoryError must be raised (63509f2: the result is tested before it is written through;
+ *                     sig=str-resize-oom, an ordinary violation); the O line also says what s->val is afterwards (NULL: the
+ *                     failed realloc's result was stored before the test — the old block is no longer referenced)
  */
 #include <stdlib.h>
 #include <string.h>
 #include <stddef.h>
 #include <errno.h>
+#include <fcntl.h>
 #include <wchar.h>
 #if defined(__has_feature)
 #  if __has_feature(address_sanitizer)
@@ -69,8 +79,11 @@ static void* v_realloc(void* p, size_t n);
 #define realloc v_realloc
 #include "common.h"
 #undef realloc
-/* realloc with determinised fresh bytes (0xA5) */
+/* realloc with determinised fresh bytes (0xA5); `v_fail_next`: the next call fails the way ISO C 7.22.3.5 says — NULL is
+ * returned and the old block is left alone (op `oom`) */
+static int v_fail_next;
 static void* v_realloc(void* p, size_t n) {
+  if (v_fail_next) { v_fail_next = 0; return NULL; }
   size_t old = p ? v_alloc_size(p) : 0;
   void* q = realloc(p, n);
   if (q && n > old) memset((char*)q + old, 0xA5, n - old);
@@ -80,6 +93,7 @@ static void* v_realloc(void* p, size_t n) {
 #define NOBJ 64
 #define MAXT 16384
 static var sobj[NOBJ];
+static var holder[NOBJ];          /* the Array a `newin` String lives in (NULL: a heap String of its own) */
 static char* rtxt[NOBJ];          /* reference text, libc only */
 static size_t rcap[NOBJ];
 
@@ -414,6 +428,8 @@ static void alias_op(const char* what, long off, const char* srct, const char* t
   char kind[128] = "none"; char* a = strstr(eb, "ERROR: AddressSanitizer: ");
   if (a) { a += strlen("ERROR: AddressSanitizer: "); size_t i = 0; while (a[i] && a[i] != ' ' && a[i] != ':' && a[i] != '\n' && i < sizeof kind - 1) { kind[i] = a[i]; i++; } kind[i] = 0; }
   const char* sig = mut ? "kf-c16-alias-operand" : "str-alias-readonly";
+  /* c_str(obj) IS s->val (the target itself, or a view at offset 0): String_Assign returns at once since 744a45f — not the finding's territory */
+  if (!strcmp(what, "assign") && off <= 0) sig = "str-assign-self";
   char call[96];
   if (off < 0) snprintf(call, sizeof call, "%s(s, s)", what); else snprintf(call, sizeof call, "%s(s, $S(c_str(s) + %ld))", what, off);
   if (!strcmp(what, "print")) { if (off < 0) snprintf(call, sizeof call, "print_to(s, %ld, \"%%s\", s)", pos); else snprintf(call, sizeof call, "print_to(s, %ld, \"%%s\", $S(c_str(s) + %ld))", pos, off); }
@@ -448,6 +464,41 @@ static void alias_op(const char* what, long off, const char* srct, const char* t
   I("alias %s len=%zu -> returned %.60s", call, tl, ob);
 }
 
+/* oom resize <T> <n>: resize(s, n) on a fresh s = new(String, $S(T)) whose realloc fails, in a forked child (before 63509f2 the
+ * library wrote through the NULL it got).  O oom resize <exception|ok> val=<NULL|kept|other>   or   O oom resize ub */
+static void oom_resize(const char* text, size_t n) {
+  int fd[2]; if (pipe(fd)) return;
+  fflush(stdout);
+  pid_t pid = fork();
+  if (pid == 0) {
+    close(fd[0]); int dn = open("/dev/null", O_WRONLY); if (dn >= 0) dup2(dn, 2); alarm(20);
+    var s = new_raw(String, $S((char*)text));
+    char* old = ((struct String*)s)->val;
+    var exc = NULL;
+    v_fail_next = 1;
+    V_TRY(exc, resize(s, n));
+    int made = !v_fail_next; v_fail_next = 0;
+    char* v = ((struct String*)s)->val;
+    dprintf(fd[1], "%s val=%s%s\n", exc ? v_exc_name(exc) : "ok", v == NULL ? "NULL" : v == old ? "kept" : "other", made ? "" : " no-realloc");
+    _exit(0);
+  }
+  close(fd[1]);
+  char ob[256]; size_t ol = 0; ssize_t r;
+  while ((r = read(fd[0], ob + ol, sizeof ob - 1 - ol)) > 0) ol += r; ob[ol] = 0; close(fd[0]);
+  int st = 0; waitpid(pid, &st, 0);
+  if (!WIFEXITED(st) || WEXITSTATUS(st) != 0) {
+    O("oom resize ub");
+    X("sig=str-resize-oom line=%zu what=resize(s, %zu) on a String of %zu chars whose realloc returns NULL: the process died (%s %d) instead of raising OutOfMemoryError — the result of realloc was written through before it was tested",
+      lineno, n, strlen(text), WIFEXITED(st) ? "exit status" : "signal", WIFEXITED(st) ? WEXITSTATUS(st) : WTERMSIG(st));
+    return;
+  }
+  char* nl = strchr(ob, '\n'); if (nl) *nl = 0;
+  O("oom resize %s", ob);
+  if (strncmp(ob, "OutOfMemoryError ", 17) != 0)
+    X("sig=str-resize-oom line=%zu what=resize(s, %zu) whose realloc returns NULL gave `%s` instead of OutOfMemoryError", lineno, n, ob);
+  I("oom resize(s, %zu) len=%zu -> %s", n, strlen(text), ob);
+}
+
 int main(int argc, char** argv) {
   v_init();
   if (argc < 2) { fprintf(stderr, "usage: h_str <opfile>\n"); return 2; }
@@ -477,12 +528,20 @@ int main(int argc, char** argv) {
         if (tok[2][0] != 'v' || !tok[2][1] || strspn(tok[2] + 1, "0123456789") != strlen(tok[2] + 1) || strlen(tok[2]) > 8) ok = 0;
         else { off = strtol(tok[2] + 1, &e2, 10); if (off > tl) ok = 0; }
       }
-      if (ok && mut && tl == 0) ok = 0;                            /* one NUL copied onto itself: undefined on paper only, not run */
+      if (ok && mut && tl == 0 && !(!strcmp(w, "assign") && off <= 0)) ok = 0;   /* one NUL copied onto itself: undefined on paper only, not run */
       if (ok && (!strcmp(w, "print") || !strcmp(w, "show"))) {
         if (nt != 5 || !tok[4][0] || strspn(tok[4], "0123456789") != strlen(tok[4]) || strlen(tok[4]) > 8) ok = 0;
         else { pos = strtol(tok[4], &e2, 10); if (pos > tl) ok = 0; }
       } else if (ok && nt != 4) ok = 0;
       if (ok) { nmut += mut; alias_op(w, off, tok[2], t1, pos); } else O("bad-op");
+      free(copyl); continue;
+    }
+    if (!strcmp(op, "oom")) {
+      /* oom resize <T> <n> */
+      long tl = nt == 4 ? dehex(tok[2], t1) : -1; char* e2; long nn = -1;
+      int ok = nt == 4 && !strcmp(tok[1], "resize") && tl >= 0 && tl <= ALIAS_MAXT;
+      if (ok) { if (!tok[3][0] || strspn(tok[3], "0123456789") != strlen(tok[3]) || strlen(tok[3]) > 7) ok = 0; else nn = strtol(tok[3], &e2, 10); }
+      if (ok) { nmut++; oom_resize(t1, (size_t)nn); } else O("bad-op");
       free(copyl); continue;
     }
     int k = -1, j = -1; char* end;
@@ -501,6 +560,14 @@ int main(int argc, char** argv) {
       V_TRY(exc, sobj[k] = new_raw(String, $S(t1)));
       ref_reserve(k, strlen(t1)); strcpy(rtxt[k], t1);
       nmut++; dump("new", k, exc ? v_exc_name(exc) : "ok");
+    } else if (!strcmp(op, "newin") && nt == 3) {
+      if (sobj[k]) { O("bad-op"); free(copyl); continue; }
+      NEED_TEXT(2, t1);
+      V_TRY(exc, { holder[k] = new_raw(Array, String); push(holder[k], $S(t1)); sobj[k] = get(holder[k], $I(0)); });
+      if (exc) X("sig=str-exc line=%zu what=push of a String into an Array raised %s", lineno, v_exc_name(exc));
+      else if (header(sobj[k])->alloc != (var)AllocData) X("sig=str-exc line=%zu what=a String inside an Array is not of class AllocData", lineno);
+      ref_reserve(k, strlen(t1)); strcpy(rtxt[k], t1);
+      nmut++; dump("newin", k, exc ? v_exc_name(exc) : "ok");
     } else if (!strcmp(op, "new0") && nt == 2) {
       if (sobj[k]) { O("bad-op"); free(copyl); continue; }
       V_TRY(exc, sobj[k] = new_raw(String));
@@ -514,7 +581,8 @@ int main(int argc, char** argv) {
       nmut++; dump("copy", k, exc ? v_exc_name(exc) : "ok");
     } else if (!strcmp(op, "del") && nt == 2) {
       NEED_LIVE(k);
-      V_TRY(exc, del_raw(sobj[k])); sobj[k] = NULL;
+      if (holder[k]) { V_TRY(exc, del_raw(holder[k])); holder[k] = NULL; } else V_TRY(exc, del_raw(sobj[k]));
+      sobj[k] = NULL;
       O("del %d %s", k, exc ? v_exc_name(exc) : "ok");
     } else if ((!strcmp(op, "assign") || !strcmp(op, "concat") || !strcmp(op, "append")) && nt == 3) {
       NEED_LIVE(k); NEED_TEXT(2, t1);
@@ -528,6 +596,13 @@ int main(int argc, char** argv) {
       if (op[0] == 'a') { V_TRY(exc, assign(sobj[k], sobj[j])); ref_reserve(k, strlen(rtxt[j])); strcpy(rtxt[k], rtxt[j]); }
       else { V_TRY(exc, concat(sobj[k], sobj[j])); ref_reserve(k, strlen(rtxt[k]) + strlen(rtxt[j])); strcat(rtxt[k], rtxt[j]); }
       if (exc) X("sig=str-exc line=%zu what=%s raised %s", lineno, op, v_exc_name(exc));
+      nmut++; dump(op, k, exc ? v_exc_name(exc) : "ok");
+    } else if (!strcmp(op, "assignself") && nt == 2) {
+      NEED_LIVE(k);
+      char* before = valof(k);
+      V_TRY(exc, assign(sobj[k], sobj[k]));                             /* the reference is unchanged: so must the String be */
+      if (exc) X("sig=str-exc line=%zu what=assign(s, s) raised %s", lineno, v_exc_name(exc));
+      if (valof(k) != before) X("sig=str-assign-self line=%zu what=assign(s, s) replaced the buffer of s", lineno);
       nmut++; dump(op, k, exc ? v_exc_name(exc) : "ok");
     } else if (!strcmp(op, "resize") && nt == 3) {
       NEED_LIVE(k); size_t m; NEED_NUM(2, m);
